@@ -79,6 +79,10 @@ def nontrivial(node, vast):
     return H.has_sampled_level(node) and max_len(vast) > 0
 
 
+# the hint on a parameter of every kind (keyword-only, positional-only, defaulted, *args, **kwargs) next to unhinted parameters
+SIG_EPS = tuple('sig:' + k for k in E.SIG_SHAPES)
+
+
 def run_case(case):
     node, vast, spec = case['hint'], case['value'], case['conf']
     x = H.realize(vast)
@@ -93,7 +97,7 @@ def run_case(case):
     evals = 0
     seen = set()
     for r in draws_for(vast, case.get('extra_draws', ())):
-        for ep in E.entry_points_for(node) + ('ident',):
+        for ep in E.entry_points_for(node) + ('ident',) + SIG_EPS:
             res = E.call_entry(ep, node, vast, spec, r)
             evals += 1
             sig = None
@@ -112,7 +116,7 @@ def run_case(case):
                 sig, detail = 'false-alarm:%s' % classes[0], 'returned False'
             else:
                 e = res['exc']
-                exp = E.expected_violation_class(spec, 'param' if ep == 'ident' else ep)
+                exp = E.expected_violation_class(spec, 'param' if ep == 'ident' or ep.startswith('sig:') else ep)
                 if isinstance(e, exp) or type(e).__name__.endswith('Violation'):
                     sig = 'false-alarm:%s' % classes[0]
                 else:
